@@ -8,16 +8,27 @@ variable {V : Type}
 def KeysNodup (st : St V) : Prop := (st.result.map (·.1)).Nodup
 
 theorem provide_nodup (L : Legacy) (W : World V) (o : Opts V) (f : PField V) (v : V) (c : Bool) (st : St V)
-    (h : KeysNodup st) : KeysNodup (provide L W o f v c st) := by
+    (h : KeysNodup st) : KeysNodup (provide L W o f v c st).1 := by
   unfold provide KeysNodup
   split
   · split
     · exact nodup_keys_dset _ _ _ h
     · exact h
   · simp only
+    have hc : ((if c = true then { st with errs := st.errs ++ [Err.aliasConflict f.name] } else st).result.map (·.1)).Nodup := by
+      split <;> exact h
     split
-    · split <;> exact h
-    · split <;> exact nodup_keys_dset _ _ _ h
+    · exact hc
+    · split
+      · exact hc
+      · exact nodup_keys_dset _ _ _ hc
+
+theorem ffExcluded_nodup (o : Opts V) (f : PField V) (st : St V) (h : KeysNodup st) : KeysNodup (ffExcluded o f st) := by
+  unfold ffExcluded KeysNodup
+  simp only
+  split
+  · exact nodup_keys_dset _ _ _ h
+  · exact h
 
 theorem absent_nodup (L : Legacy) (o : Opts V) (f : PField V) (st : St V) (h : KeysNodup st) :
     KeysNodup (absent L o f st) := by
@@ -45,8 +56,8 @@ theorem foldl_nodup {α : Type} (step : St V → α → St V) (hstep : ∀ st a,
   | cons x xs ih => exact ih _ (hstep st x h)
 
 theorem dfItems_nodup (L : Legacy) (W : World V) (P : Parser V) (o : Opts V) (c : List Key)
-    (l : List (Key × Input V)) (acc : St V × List (Key × V)) (h : KeysNodup acc.1) :
-    KeysNodup (l.foldl (dfItemStep L W P o c) acc).1 := by
+    (l : List (Key × Input V)) (acc : DfRun V) (h : KeysNodup acc.st) :
+    KeysNodup (l.foldl (dfItemStep L W P o c) acc).st := by
   induction l generalizing acc with
   | nil => exact h
   | cons x xs ih =>
@@ -88,7 +99,10 @@ theorem fieldFirst_nodup [DecidableEq V] (W : World V) (P : Parser V) (o : Opts 
         simp only
         split
         · exact absent_nodup _ _ _ _ h
-        · exact provide_nodup _ _ _ _ _ _ _ h
+        · simp only
+          split
+          · exact ffExcluded_nodup _ _ _ (provide_nodup _ _ _ _ _ _ _ h)
+          · exact provide_nodup _ _ _ _ _ _ _ h
     exact this P.fields {} (by simp [KeysNodup])
   split
   · exact hbase
